@@ -1,12 +1,11 @@
 """C07 — Stop() returns only after the Run() it targets has returned, in every ordering and cycle.
-Proof: props/C07.v over coq/model/Lifecycle.v.  Tie: lock-step schedule replay of
-supervisor/lifecycle.StartStop through the `verif` yield hooks (harness/cmd/c07) against the
-extracted model (ocaml/c07.ml), all interleavings of k Stop callers x m Run cycles; plus a
-real-time smoke family for the three bundled runners.
-
-Which step function the implementation is compared with ([step false] = code as it is, [step true]
-= candidate repair) is decided by the implementation's BEHAVIOUR on the witness schedule of F14
-(never by reading source)."""
+Proof: props/C07.v over coq/model/Lifecycle.v (step true = the code in /repo) and
+coq/model/LifecycleRunner.v (skeleton of the bundled runners).
+Tie: (1) lock-step schedule replay of supervisor/lifecycle.StartStop through the `verif` yield
+hooks (harness/cmd/c07) against the extracted model (ocaml/c07.ml): all interleavings of k Stop
+callers x m Run cycles; (2) the source-shape translator harness/cmd/c07shape regenerates
+coq/gen/RunnerShape.v from the repo and C07_runners_shape re-proves that the three bundled
+runners are instances of the skeleton; (3) a real-time smoke family drives the three runners."""
 import concurrent.futures as cf
 import json
 import os
@@ -16,18 +15,19 @@ import threading
 from . import common as C
 
 OCAML = ["c07"]
-GO = ["c07"]
+GO = ["c07", "c07shape"]
 PROP = "props/C07.v"
-PROOFS = ["proofs/LifecycleInv.v", "proofs/LifecycleStep.v", "proofs/LifecycleMain.v", "model/Lifecycle.v"]
+PROOFS = ["proofs/LifecycleInv.v", "proofs/LifecycleStep.v", "proofs/LifecycleMain.v", "proofs/LifecycleMono.v",
+          "proofs/LifecycleRunnerProofs.v", "model/Lifecycle.v", "model/LifecycleRunner.v", "gen/RunnerShape.v"]
 HOOK = "supervisor/lifecycle/verif_on.go (var VerifYield func(point string)) + verifYield calls in startstop.go"
-F14_KEY = "stop-spans-cycle-reset"
-WITNESS = ("1", "2", "r a0 d r b0")       # K, M, director labels
 CORPUS = os.path.join(C.VERIF, "corpus", "C07", "schedules.txt")
+SHAPE_V = os.path.join(C.COQ, "gen", "RunnerShape.v")
+HOW = "build/bin/c07 -mode sched -k <k> -m <m> -sched '<sched>' | build/bin/c07_model --fixed 1"
 
 SHAPE_TEXT = {
     "early-return": "Stop() returned although the Run() it targets has not returned",
     "spans-reset": "Stop() is parked on the doneCh of a later Run cycle that it never signalled, although the Run it "
-                   "targeted has returned (second critical section ran after Started() reset the lifecycle)",
+                   "targeted has returned (its second critical section ran after Started() reset the lifecycle)",
     "blocked-after-run": "Stop() is blocked although the Run() it targets has returned",
     "unsignalled": "Stop() is parked on a Run whose StopCh() is not closed",
     "started-missed": "Stop() is still blocked in <-startedCh although its Run has started",
@@ -56,21 +56,6 @@ def raw(args, timeout=600):
     return p.returncode, p.stdout.decode(), p.stderr.decode()
 
 
-def detect_mode():
-    """Replay the F14 witness on the implementation.  Returns ('asis'|'repaired'|'unknown', line)."""
-    rc, out, err = raw(["-mode", "sched", "-k", WITNESS[0], "-m", WITNESS[1], "-sched", WITNESS[2]])
-    line = out.strip()
-    m = re.search(r" b0=(\S+)", line)
-    if rc != 0 or not m:
-        return "unknown", line + err
-    o = m.group(1)
-    if o == "d/FB/0":
-        return "asis", line
-    if o == "R/FB/0":
-        return "repaired", line
-    return "unknown", line
-
-
 class Acc:
     def __init__(self):
         self.stats = {}
@@ -80,31 +65,25 @@ class Acc:
         self.lock = threading.Lock()
 
 
-def run_family(acc, args, fixed, emit=None):
-    margs = ["--fixed", "1" if fixed else "0"]
+def run_family(acc, args, emit=None):
+    margs = ["--fixed", "1"]
     if emit:
         margs += ["--emit-coq", emit[0], "--every", str(emit[1])]
     lines, grc, mrc, err = harness(args, margs)
-    got = False
     with acc.lock:
-        got = _collect(acc, lines)
+        got = False
+        for l in lines:
+            if l.startswith("MISMATCH"):
+                acc.mism.append(l)
+            elif l.startswith("PROP"):
+                acc.props.append(l)
+            elif l.startswith("SUMMARY"):
+                got = True
+                for kv in l.split()[1:]:
+                    k, v = kv.split("=")
+                    acc.stats[k] = acc.stats.get(k, 0) + int(v)
         if grc != 0 or mrc != 0 or not got:
             acc.fail.append({"args": args, "harness_rc": grc, "model_rc": mrc, "stderr": err[-3000:], "out_tail": lines[-5:]})
-
-
-def _collect(acc, lines):
-    got = False
-    for l in lines:
-        if l.startswith("MISMATCH"):
-            acc.mism.append(l)
-        elif l.startswith("PROP"):
-            acc.props.append(l)
-        elif l.startswith("SUMMARY"):
-            got = True
-            for kv in l.split()[1:]:
-                k, v = kv.split("=")
-                acc.stats[k] = acc.stats.get(k, 0) + int(v)
-    return got
 
 
 def field(line, name):
@@ -117,31 +96,19 @@ def sched_of(line):
     return line[i + 6:].strip() if i >= 0 else ""
 
 
-def report(run, acc, mode):
-    """Classification: the property failing on the implementation's observations -> violation with an
-    input; any other model/implementation disagreement -> no-failing-input-found."""
-    how = "build/bin/c07 -mode sched -k <k> -m <m> -sched '<sched>' | build/bin/c07_model --fixed %d" % (mode == "repaired")
+def report(run, acc):
+    """The property failing on the implementation's observations -> violation with the failing schedule;
+    any other model/implementation disagreement -> no-failing-input-found."""
     by_shape = {}
     for l in acc.props:
-        shape = l.split()[1]
-        by_shape.setdefault(shape, []).append(l)
+        by_shape.setdefault(l.split()[1], []).append(l)
     for shape, ls in sorted(by_shape.items()):
         ls.sort(key=lambda l: (len(sched_of(l).split()), sched_of(l)))
-        text = SHAPE_TEXT.get(shape, shape)
-        if shape == "spans-reset" and mode == "asis":
-            l = ls[0]
-            run.violation(F14_KEY, {"k": field(l, "k"), "m": field(l, "m"), "sched": sched_of(l), "caller": field(l, "caller"),
-                                    "driver_line": l, "how": how, "occurrences": len(ls),
-                                    "model": "C07_signalled_progress_refuted (witness f14_schedule)"},
-                          text + "; shortest schedule: %s" % sched_of(l))
-            # (by C07_signalled, with equal observations the model's caller is then necessarily c_span = true;
-            #  after a divergence the shape is still the keyed one -- the divergence itself is reported below)
-            continue
-        for l in ls[:3]:
-            key = "%s%s:%s" % (shape, "-after-repair" if (shape == "spans-reset") else "", sched_of(l).replace(" ", "."))
-            run.violation(key, {"k": field(l, "k"), "m": field(l, "m"), "sched": sched_of(l), "caller": field(l, "caller"),
-                                "driver_line": l, "how": how, "occurrences": len(ls)},
-                          text + "; schedule: %s (caller %s)" % (sched_of(l), field(l, "caller")))
+        for l in ls[:2]:
+            run.violation("%s:%s" % (shape, sched_of(l).replace(" ", ".")),
+                          {"k": field(l, "k"), "m": field(l, "m"), "sched": sched_of(l), "caller": field(l, "caller"),
+                           "driver_line": l, "how": HOW, "occurrences": len(ls)},
+                          SHAPE_TEXT.get(shape, shape) + "; schedule: %s (caller %s)" % (sched_of(l), field(l, "caller")))
     seen = set()
     acc.mism.sort(key=lambda l: (len(sched_of(l).split()), sched_of(l)))
     for l in acc.mism:
@@ -150,9 +117,9 @@ def report(run, acc, mode):
             continue
         seen.add(kind)
         run.violation("corr-%s:%s" % (kind, sched_of(l).replace(" ", ".")),
-                      {"k": field(l, "k"), "m": field(l, "m"), "sched": sched_of(l), "driver_line": l, "how": how,
-                       "theorem": "lock-step correspondence between StartStop and coq/model/Lifecycle.v (step %s); the C07_* "
-                                  "theorems are about that model" % ("true" if mode == "repaired" else "false"),
+                      {"k": field(l, "k"), "m": field(l, "m"), "sched": sched_of(l), "driver_line": l, "how": HOW,
+                       "theorem": "lock-step correspondence between lifecycle.StartStop and coq/model/Lifecycle.v (step true); "
+                                  "the C07_* theorems are about that model",
                        "occurrences": sum(1 for x in acc.mism if x.split()[1] == kind)},
                       "implementation and model disagree (%s) after schedule: %s" % (kind, sched_of(l)), True)
     for f in acc.fail[:2]:
@@ -163,32 +130,57 @@ def report(run, acc, mode):
 
 
 def runners(run):
+    """Real-time smoke family for the three bundled runners.  Returns (#scenarios, #failed)."""
     rc, out, err = raw(["-mode", "runners"], timeout=600)
-    n = 0
+    n = bad = 0
     for l in out.splitlines():
         t = l.split(None, 4)
         if len(t) >= 4 and t[0] == "runner":
             n += 1
             if t[3] != "ok":
+                bad += 1
                 msg = t[4] if len(t) > 4 else ""
                 broken = "scenario broken" in msg or "cannot build runner" in msg
                 run.violation("runner:%s:%s" % (t[1], t[2]), {"line": l, "how": "build/bin/c07 -mode runners"},
                               "bundled %s runner, scenario %s: %s" % (t[1], t[2], msg), broken)
     if rc != 0 or n == 0:
         run.violation("runners-failed", {"rc": rc, "stderr": err[-2000:]}, "runner smoke family failed to run", True)
-    return n
+    return n, bad
+
+
+def regen_shape(run):
+    """Translator output coq/gen/RunnerShape.v, regenerated from the repo under test BEFORE the Coq build.
+    Returns the per-runner facts (list of stderr lines) or None."""
+    okb, log = C.go_build(["c07shape"])
+    if not okb:
+        run.violation("build-go-shape", {"log": log[-3000:]}, "the C07 source-shape translator does not build", True)
+        return None
+    with C.Lock("coq"):
+        p = subprocess.run([os.path.join(C.BIN, "c07shape"), "-repo", C.REPO, "-o", SHAPE_V],
+                           stdout=subprocess.PIPE, stderr=subprocess.PIPE, timeout=120)
+    facts = [l for l in p.stderr.decode().splitlines() if l.startswith("shape ")]
+    if p.returncode not in (0, 1) or len(facts) != 3:
+        run.violation("shape-translator-failed", {"rc": p.returncode, "stderr": p.stderr.decode()[-2000:]},
+                      "harness/cmd/c07shape failed on the repo under test", True)
+        return None
+    return facts
 
 
 def run(run):
-    C.proof_leg(run, PROP, PROOFS, trusted_extra=[
+    facts = regen_shape(run)
+    proof_ok = C.proof_leg(run, PROP, PROOFS, trusted_extra=[
         "hand-written model of startstop.go (channels = ids with a closed flag; critical sections atomic); tied by lock-step replay",
+        "runner skeleton (LifecycleRunner.v): the runners' own state is abstracted to local stutter steps; that Run()/Stop() of the "
+        "three runners are instances of it rests on the go/ast translator harness/cmd/c07shape (coq/gen/RunnerShape.v, "
+        "C07_runners_shape) and on the smoke family",
         "yield hooks in /repo behind the `verif` build tag; director + runtime.Stack goroutine statuses (harness/cmd/c07)",
         "extraction via ExtrOcamlBasic only; OCaml driver ocaml/c07.ml + util.ml; a sample of executions is re-evaluated by vm_compute in coqc"])
+    shape_broken = bool(facts) and any("=false" in f for f in facts)
     okb, log = C.go_build(["c07"])
     if not okb:
         if "VerifYield" in log or "verifYield" in log:
             run.violation("hook-missing:lifecycle.VerifYield", {"log": log[-3000:], "hook": HOOK, "patch": "hooks/c07-lifecycle.patch"},
-                          "the repo under test lacks the C07 yield hook %s (apply /verif/hooks/c07-lifecycle.patch); "
+                          "the repo under test lacks the C07 yield hook %s (see /verif/hooks/c07-lifecycle.patch); "
                           "the lock-step correspondence cannot be checked" % HOOK, True)
         else:
             run.violation("build-go", {"log": log[-3000:]}, "harness does not build against the repo under test", True)
@@ -197,15 +189,11 @@ def run(run):
     if not oko:
         run.violation("build-ocaml", {"log": log[-3000:]}, "model driver does not build", True)
         return
-    mode, wline = detect_mode()
-    if mode == "unknown":
-        run.violation("corr-witness", {"line": wline, "sched": WITNESS[2]},
-                      "the F14 witness schedule gives neither the behaviour of the code as it is nor that of the repair", True)
-        mode = "asis"
-    fixed = mode == "repaired"
     acc = Acc()
     xfile = os.path.join(C.BUILD, "c07_xcheck_%s.v" % run.tier)
-    # corpus first
+    if os.path.exists(xfile):
+        os.unlink(xfile)
+    # corpus first (includes the witnesses of the repaired defect F14 as regressions)
     n_corpus = 0
     if os.path.exists(CORPUS):
         for line in open(CORPUS):
@@ -213,7 +201,7 @@ def run(run):
             if not line:
                 continue
             k, m, sched = line.split(None, 2)
-            run_family(acc, ["-mode", "sched", "-k", k, "-m", m, "-sched", sched], fixed)
+            run_family(acc, ["-mode", "sched", "-k", k, "-m", m, "-sched", sched])
             n_corpus += 1
     # exhaustive interleavings
     K = 2 if run.tier == "quick" else 3
@@ -236,13 +224,13 @@ def run(run):
     for i in range(rshards):
         jobs.append((["-mode", "random", "-k", "6", "-m", "6", "-n", str(nrand // rshards), "-seed", str(run.seed * 1000 + i)], None))
     with cf.ThreadPoolExecutor(max_workers=min(C.NPROC, 16)) as ex:
-        futs = [ex.submit(run_family, acc, a, fixed, e) for a, e in jobs]
+        futs = [ex.submit(run_family, acc, a, e) for a, e in jobs]
         for f in futs:
             f.result()
-    report(run, acc, mode)
+    report(run, acc)
     # kernel re-evaluation of sampled executions (extraction cross-check)
     xok = None
-    if os.path.exists(xfile):
+    if os.path.exists(xfile) and proof_ok:
         with C.Lock("coq"):
             rc, out = C.sh(["timeout", "600", "coqc"] + C.coq_flags() + [xfile], cwd=C.COQ)
         xok = rc == 0
@@ -250,15 +238,20 @@ def run(run):
             run.violation("corr-extraction", {"file": xfile, "log": out[-2000:],
                                               "theorem": "extracted OCaml model = Coq model (vm_compute re-evaluation of sampled executions)"},
                           "a sampled execution re-evaluated inside Coq disagrees with the extracted model/implementation", True)
-    n_runner = runners(run)
-    known = [f for f in run.findings if f["key"] == F14_KEY]
-    if mode == "repaired" and known:
-        run.notes.append("known_findings.txt lists %s but the repo under test no longer exhibits it (stale entry)" % F14_KEY)
+    n_runner, bad_runner = runners(run)
+    if shape_broken:
+        # C07_runners_shape no longer holds (props/C07.v failed to build -> reported by proof_leg as a broken
+        # obligation).  The search for a concrete failing schedule is the smoke family + the lock-step run above.
+        run.notes.append("runner shape facts changed: %s; smoke family found %d failing scenario(s)" % ("; ".join(facts), bad_runner))
+        if not proof_ok:
+            pass  # proof_leg already registered proof-broken:props/C07.v (no-failing-input-found)
+        else:
+            run.violation("runner-shape:" + ",".join(f.split()[1] for f in facts if "=false" in f), {"facts": facts},
+                          "a bundled runner no longer has the Started/defer done/StopCh/Stop shape the skeleton models", True)
     st = acc.stats
     samples = []
     rc, out, err = raw(["-mode", "random", "-k", "3", "-m", "3", "-n", "4", "-seed", str(run.seed)])
     samples += out.splitlines()[:4]
-    samples.append(wline)
     run.coverage.update({
         "evaluations": st.get("n", 0),
         "distinct_nontrivial": st.get("distinct", 0),
@@ -271,17 +264,16 @@ def run(run):
         "samples": samples,
         "exhaustive": False,
         "exhaustive_up_to": "k<=%d callers x m<=%d cycles (all interleavings of the critical sections)" % (K, M),
-        "model_compared": "step true (candidate repair)" if fixed else "step false (code as it is)",
-        "mode_detected_on_witness": wline,
+        "model_compared": "step true",
         "labels_replayed": st.get("labels", 0),
         "director_steps": st.get("steps", 0),
         "enabledness_checks": st.get("disabled_checked", 0),
         "blocked_observations": st.get("blockedobs", 0),
-        "executions_with_spanning_caller": st.get("spans", 0),
         "property_failures_on_impl": len(acc.props),
         "mismatches": len(acc.mism),
         "kernel_rechecked_executions": st.get("emitted", 0),
         "kernel_recheck_ok": xok,
+        "runner_shape_facts": facts,
         "runner_smoke_scenarios": n_runner,
         "traces_validated_against_impl": st.get("n", 0),
     })
@@ -289,8 +281,9 @@ def run(run):
         "the model is a hand transcription of startstop.go; it is tied to the code only on the schedules replayed",
         "satisfied channel waits are taken eagerly by the real goroutines (they change no shared state); the model driver inserts "
         "the corresponding internal labels",
-        "C07 for the bundled runners rests on their Run using Started()/done()/StopCh() as the harness's runCycle does "
-        "(read from the source) plus the real-time smoke family; their own models belong to C08-C16"]
+        "C07 for the bundled runners: their Run()/Stop() are instances of the skeleton by the syntactic facts of RunnerShape.v "
+        "(translator trusted) -- boot/teardown code is abstracted to local steps and is assumed not to touch the lifecycle "
+        "(checked: the lc field is used nowhere else) and to terminate (C08-C16 are about that code)"]
 
 
 def replay(path):
@@ -304,9 +297,7 @@ def replay(path):
     if not (okb and oko):
         print(log, log2)
         return 1
-    mode, _ = detect_mode()
-    lines, grc, mrc, err = harness(["-mode", "sched", "-k", str(r["k"]), "-m", str(r["m"]), "-sched", r["sched"]],
-                                   ["--fixed", "1" if mode == "repaired" else "0"])
+    lines, grc, mrc, err = harness(["-mode", "sched", "-k", str(r["k"]), "-m", str(r["m"]), "-sched", r["sched"]], ["--fixed", "1"])
     print("\n".join(lines))
     bad = [l for l in lines if l.startswith(("MISMATCH", "PROP"))]
     if bad or grc or mrc:
